@@ -138,6 +138,8 @@ def rand_case(rng, maxpix=36, dtype=None, allow_user=True, adj=None, scale=None)
                 k = (hi - lo) // (mx - mn)
                 case['vals'] = [lo + (v - mn) * k for v in case['vals']]
         case['dtype'] = dt
+    if case['adj'][0] == 'grid' and any(case['adj'][1]) and rng.random() < 0.25:
+        case['per_negative'] = True          # periodic_neighbours(-1), periodic_neighbours([-2, -1])
     if rng.random() < 0.3:
         # what a user gets from arr.T, np.asfortranarray, a strided slice or a read-only buffer
         case['layout'] = rng.choice(['F', 'T', 'strided', 'readonly'])
